@@ -6,3 +6,5 @@
 
 pub mod common;
 mod c09;
+pub mod c08;
+mod gen_c08;
